@@ -666,10 +666,19 @@ def dalitz_cases(ctx, rnd, cs, n):
     fails = []
     for k in range(n):
         m0, m1, m2, m3, s12, s23 = dalitz_point(rnd, edge=(k % 4 == 3))
-        ps = Dalitz(m0, m1, m2, m3).generate_p(T(s12)[0], T(s23)[0])
+        # the Dalitz variables as float64 tensors, as plain python numbers or as numpy scalars: the same momenta
+        # (python numbers went through float32 until /repo 31911e4: errors of 5e-8 m0^2, hunt2 C11 finding 3)
+        rep = ("tensor", "python_float", "numpy_scalar")[k % 3]
+        if rep == "tensor":
+            ps = Dalitz(m0, m1, m2, m3).generate_p(T(s12)[0], T(s23)[0])
+        elif rep == "python_float":
+            ps = Dalitz(m0, m1, m2, m3).generate_p(float(s12), float(s23))
+        else:
+            ps = Dalitz(m0, m1, m2, m3).generate_p(np.float64(s12), np.float64(s23))
+        ctx.count("dalitz_input_" + rep)
         ps = [arr(p) for p in ps]
         args = " ".join(Rq(x) for x in (s12, s23, m0, m1, m2, m3))
-        meta = {"function": "Dalitz.generate_p", "m0": m0, "mi": [m1, m2, m3], "s12": s12, "s23": s23}
+        meta = {"function": "Dalitz.generate_p", "m0": m0, "mi": [m1, m2, m3], "s12": s12, "s23": s23, "input_as": rep}
         ctx.count("dalitz")
         ctx.distinct.add(("dalitz", m0, m1, m2, m3, s12, s23))
         ctx.evaluations += 1
@@ -678,6 +687,42 @@ def dalitz_cases(ctx, rnd, cs, n):
         f = dalitz_direct(m0, m1, m2, m3, s12, s23, ps)
         if f:
             fails.append(dict(layer="R.dalitz", what=f, input=meta, case="D%d" % k))
+    return fails
+
+
+def mass_scan_cases(ctx, rnd, n):
+    """HelicityAngle.generate_p_mass(name, m): momenta with the mass of one intermediate state replaced by m, the name given
+    as string or as the particle object itself (the object was silently ignored until /repo ad92c58: nominal mass for every m,
+    hunt2 C11 finding 2).  Direct test on the implementation: the invariant mass of the state's final particles is m."""
+    from tf_pwa.data_trans.helicity_angle import HelicityAngle
+    fails = []
+    for k in range(n):
+        ch = rnd.choice(all_chains(rnd.choice((3, 4))))
+        tree = build_tree(ch)
+        mass = gen_masses(rnd, tree, False)
+        inner = [nd for nd in tree.nodes() if nd.kids and nd is not tree]
+        if not inner:
+            continue
+        nd = rnd.choice(inner)
+        for p_, m_ in mass.items():
+            p_.mass = m_
+            p_.get_mass = (lambda v=m_: v)  # plain BaseParticle objects of DecayChain.from_particles carry no mass API
+        leaves = [x.part for x in nd.nodes() if not x.kids]
+        lo = sum(mass[f_] for f_ in leaves)
+        ms = [lo + (mass[nd.part] - lo) * x for x in (0.5, 1.0, 0.8)]
+        for as_obj in (False, True):
+            name = nd.part if as_obj else str(nd.part)
+            try:
+                data = HelicityAngle(ch).generate_p_mass(name, np.array(ms))
+                got = [float(np.sqrt(max(0.0, (lambda q: q[0] ** 2 - q[1] ** 2 - q[2] ** 2 - q[3] ** 2)(sum(np.array(data[f_])[i] for f_ in leaves))))) for i in range(len(ms))]
+            except Exception as e:
+                ctx.count("mass_scan_declined")
+                continue
+            ctx.evaluations += 1
+            ctx.count("mass_scan_name_as_%s" % ("object" if as_obj else "string"))
+            if max(abs(a - b) for a, b in zip(got, ms)) > 1e-9 * max(ms):
+                fails.append(dict(layer="R.mass_scan", case="M%d_%d" % (k, as_obj), what="generate_p_mass(%r, m): requested m = %r, invariant mass of the generated momenta = %r" % (name, ms, got),
+                                  input={"function": "HelicityAngle.generate_p_mass", "chain": shape_str(tree), "name_given_as": "object" if as_obj else "string", "requested": ms, "generated": got}))
     return fails
 
 
@@ -777,7 +822,8 @@ def run(ctx):
     plan = [(3, 3, 2, True), (4, 2, 1, False), (5, 1, 1, False)] if quick else [(3, 3, 6, True), (4, 15, 2, True), (5, 20, 1, True)]
     pyfails = chain_cases(ctx, rnd, cs, plan)
     ctx.log("chain goals", len(cs.items))
-    pyfails += dalitz_cases(ctx, rnd, cs, 8 if quick else 80)
+    pyfails += dalitz_cases(ctx, rnd, cs, 9 if quick else 81)
+    pyfails += mass_scan_cases(ctx, random.Random(ctx.seed * 1000003 + 1111), 4 if quick else 40)
     ctx.log("all goals", len(cs.items), "python-level failures", len(pyfails))
     # direct round trips only (no Coq goals), more topologies: every topology in thorough
     extra = Cases(ctx)
